@@ -24,8 +24,8 @@ GPack(cap) ==
     ELSE PackRange(written, 0, TRUE)
 \* harness indices are 0-based positions among the frames still in flight (lose), among the delivered ones (ack)
 DeliveredBefore(i) == Cardinality({j \in 1..(i - 1) : net[j].delivered})
-GenNext ==
-  /\ Steps < Depth
+LimboDeliveredBefore(i) == Cardinality({j \in 1..(i - 1) : limbo[j].delivered})
+GenNextBody ==
   /\ nsteps' = nsteps + 1
   /\ \/ \E n \in {1, 2} : AWrite(n) /\ H(<<"write", S, SID, n>>)
      \/ AShutdown /\ H(<<"shutdown", S, SID>>)
@@ -33,6 +33,9 @@ GenNext ==
      \/ \E i \in 1..MaxNet : ADeliver(i) /\ H(<<"deliver", S, i - 1>>)
      \/ \E i \in 1..MaxNet : ALose(i) /\ H(<<"lose", S, i - 1>>)
      \/ \E i \in 1..MaxNet : AAck(i) /\ H(<<"ack", S, DeliveredBefore(i)>>)
+     \/ \E j \in 1..MaxLoss : ALateDeliver(j) /\ ~limbo[j].delivered /\ H(<<"latedeliver", S, j - 1>>)
+     \/ \E j \in 1..MaxLoss : ALateAck(j) /\ H(<<"lateack", S, LimboDeliveredBefore(j)>>)
      \/ \E k \in {1, 3} : ARead(k) /\ hist' = hist \o << <<"accept", R, Dir>>, <<"read", R, SID, k>> >>
+GenNext == Steps < Depth /\ GenNextBody
 EmitGen == (Steps >= Depth) => PrintT(<<"GEN", ToJson(hist)>>)
 =============================================================================
